@@ -144,6 +144,51 @@ def pe_dump(path):
     return ref
 
 
+LC = {"LC_SEGMENT": 1, "LC_SYMTAB": 2, "LC_UNIXTHREAD": 5, "LC_DYSYMTAB": 0xB, "LC_LOAD_DYLIB": 0xC, "LC_LOAD_DYLINKER": 0xE,
+      "LC_SEGMENT_64": 0x19, "LC_UUID": 0x1B, "LC_CODE_SIGNATURE": 0x1D, "LC_DYLD_INFO_ONLY": 0x80000022,
+      "LC_VERSION_MIN_MACOSX": 0x24, "LC_FUNCTION_STARTS": 0x26, "LC_MAIN": 0x80000028, "LC_DATA_IN_CODE": 0x29,
+      "LC_SOURCE_VERSION": 0x2A, "LC_BUILD_VERSION": 0x32}
+
+
+def macho_dump(path):
+    """obj2yaml (LLVM's Mach-O reader, full field dump) + llvm-readobj --symbols (names) + llvm-objdump (thread state)"""
+    import yaml
+    y = yaml.safe_load(subprocess.run(["obj2yaml", path], stdout=subprocess.PIPE, check=True).stdout.decode().replace("--- !mach-o", "---"))
+    h = y["FileHeader"]
+    ref = {"format": "macho", "is64": h["magic"] == 0xFEEDFACF,
+           "hdr": {k: h[k] for k in ("magic", "cputype", "cpusubtype", "filetype", "ncmds", "sizeofcmds", "flags")},
+           "cmds": [], "syms": []}
+    od = subprocess.run(["llvm-objdump", "-m", "--private-headers", path], stdout=subprocess.PIPE, check=True).stdout.decode()
+    pcs = [int(m.group(1), 16) for m in re.finditer(r"\b[er]ip\s+(0x[0-9a-fA-F]+)", od)]
+    for c in y["LoadCommands"]:
+        e = {"name": c["cmd"], "cmdsize": c["cmdsize"]}
+        if c["cmd"] in LC:
+            e["cmd"] = LC[c["cmd"]]
+        if c["cmd"] in ("LC_SEGMENT", "LC_SEGMENT_64"):
+            e["seg"] = {"segname": [ord(x) for x in c["segname"]]}
+            for k in ("vmaddr", "vmsize", "fileoff", "filesize", "maxprot", "initprot", "nsects", "flags"):
+                e["seg"][k] = c[k]
+            e["sects"] = []
+            for sc in c.get("Sections", []):
+                d = {"sectname": [ord(x) for x in sc["sectname"]], "segname": [ord(x) for x in sc["segname"]]}
+                for k in ("addr", "size", "offset", "align", "reloff", "nreloc", "flags", "reserved1", "reserved2"):
+                    d[k] = sc[k]
+                e["sects"].append(d)
+        elif c["cmd"] == "LC_MAIN":
+            e["entryoff"] = c["entryoff"]
+        elif c["cmd"] == "LC_UNIXTHREAD" and pcs:
+            e["pc"] = pcs.pop(0)
+        ref["cmds"].append(e)
+    so = subprocess.run(["llvm-readobj", "--symbols", path], stdout=subprocess.PIPE, check=True).stdout.decode()
+    names = [(m.group(1), int(m.group(2))) for m in re.finditer(r"Name: (\S*) \((\d+)\)", so)]
+    nl = (y.get("LinkEditData") or {}).get("NameList") or []
+    for (nm, strx), n in zip(names, nl):
+        ref["syms"].append({"name": nm, "n_strx": n["n_strx"], "n_type": n["n_type"], "n_sect": n["n_sect"],
+                            "n_desc": n["n_desc"], "n_value": n["n_value"]})
+        assert strx == n["n_strx"]
+    return ref
+
+
 def magic(path):
     with open(path, "rb") as f:
         return f.read(4)
@@ -169,9 +214,16 @@ def main():
             out = os.path.join(ex, n[:-5] + ".exe")
             subprocess.run(["yaml2obj", os.path.join(ex, n), "-o", out], check=True)
             files.append(("extra/" + n[:-5] + ".exe", out, "extra"))
+    files.append(("x64/toc.osx/toc.mach-o", os.path.join(SAMPLES, "x64/toc.osx/toc.mach-o"), "samples"))
+    for n in sorted(os.listdir(ex)):
+        if n.endswith(".yaml") and open(os.path.join(ex, n)).read().startswith("--- !mach-o"):
+            out = os.path.join(ex, n[:-5] + ".macho")
+            subprocess.run(["yaml2obj", os.path.join(ex, n), "-o", out], check=True)
+            files.append(("extra/" + n[:-5] + ".macho", out, "extra"))
     index = []
     for rel, p, origin in files:
-        ref = pe_dump(p) if magic(p)[:2] == b"MZ" else elf_dump(p)
+        m4 = magic(p)
+        ref = pe_dump(p) if m4[:2] == b"MZ" else macho_dump(p) if m4 in (b"\xce\xfa\xed\xfe", b"\xcf\xfa\xed\xfe") else elf_dump(p)
         ref["file"] = rel
         ref["origin"] = origin
         ref["sha256"] = hashlib.sha256(open(p, "rb").read()).hexdigest()
